@@ -3,6 +3,7 @@
 //   xv worker <ID> <tier> <k> <n> <shard>   one worker process
 //   xv replay <ID> <file>             strict replay of one saved case
 mod common;
+mod ext;
 mod prog;
 mod props;
 mod xs;
